@@ -616,3 +616,123 @@ Section ChildKeyZ.
     - unfold Bip32Kholaw.child_key. rewrite I. reflexivity.
   Qed.
 End ChildKeyZ.
+
+(* ================================================================== 8. the Khovratovich-Law derivator as the property demands it
+   (Model/C14b.v: kh_derivator_conformant): no bound on the parent key, no hypothesis on the HMAC *)
+Section Conformant.
+  Variable hmac_sha512 : list N -> list N -> list N.
+  Variable hmac_sha256 : list N -> list N -> list N.
+  Variable pbkdf2_sha512 : list N -> list N -> N -> N -> list N.
+  Variable G : Type.
+  Variable gadd : G -> G -> G.
+  Variable gmul : N -> G -> G.
+  Variable gbase : G.
+  Variable g_is_zero : G -> bool.
+  Variable penc : G -> list N.
+  Variable pdec : list N -> option G.
+  Notation node_from_priv := (Bip32Kholaw.node_from_priv G gmul gbase g_is_zero penc).
+  Notation ckd_priv := (Bip32Kholaw.ckd_priv hmac_sha512 G gmul gbase g_is_zero penc).
+  Notation child_key := (Bip32Kholaw.child_key hmac_sha512 G gadd gmul gbase g_is_zero penc pdec).
+  Notation conf := (C14b.kh_derivator_conformant G gmul gbase g_is_zero penc).
+  Notation kh_derivator := (Bip32Kholaw.kh_derivator G gmul gbase g_is_zero penc).
+  Notation kh_ckd := (C14b.kh_ckd hmac_sha512 G gadd gmul gbase g_is_zero penc pdec).
+
+  Lemma kh_new_left_conformant_family zl kl : in_family (C14b.kh_new_left_conformant zl kl) = true.
+  Proof.
+    unfold C14b.kh_new_left_conformant. cbv zeta.
+    destruct (negb _); [|reflexivity].
+    destruct (N.ltb_spec (zl8 zl + le_to_int kl) (256 ^ N.of_nat (kh_priv_len / 2))) as [H|H]; [|reflexivity].
+    rewrite (le_pad_fixed _ _ H). reflexivity.
+  Qed.
+
+  Lemma kh_new_right_family zr kr : in_family (kh_new_right zr kr) = true.
+  Proof.
+    unfold kh_new_right. destruct Lemmas.Bip32Kholaw.kh_consts as (_ & _ & _ & _ & -> & _ & _ & _ & _ & ->).
+    rewrite le_pad_fixed; [reflexivity|]. rewrite pow256_32. apply N.mod_upper_bound. discriminate.
+  Qed.
+
+  (* where the code's derivator does not overflow the two agree *)
+  Lemma kh_new_left_conformant_agrees zl kl : zl8 zl + le_to_int kl < 2 ^ 256 ->
+    C14b.kh_new_left_conformant zl kl = kh_new_left zl kl.
+  Proof.
+    intros H. unfold C14b.kh_new_left_conformant, kh_new_left. cbv zeta.
+    destruct (negb _); [|reflexivity].
+    destruct Lemmas.Bip32Kholaw.kh_consts as (_ & _ & _ & _ & _ & _ & _ & _ & _ & ->). rewrite pow256_32.
+    apply N.ltb_lt in H. rewrite H. reflexivity.
+  Qed.
+
+  Lemma conf_ckd_priv_family n k i : i < 2 ^ 32 -> in_family (ckd_priv conf n k i) = true.
+  Proof.
+    intros Hi. unfold Bip32Kholaw.ckd_priv. cbn [d_ser_index d_new_left d_new_right C14b.kh_derivator_conformant].
+    rewrite (Lemmas.Bip32Kholaw.ser_index_le i Hi). cbn [bind Ok Err].
+    destruct (is_hardened i); cbv zeta;
+      (apply fam_bind; [apply kh_new_left_conformant_family|]; intros kl _;
+       apply fam_bind; [apply kh_new_right_family|]; intros kr _; apply node_from_priv_family).
+  Qed.
+
+  (* the child of a private object is private *)
+  Lemma ckd_priv_child_private d n k i n' : ckd_priv d n k i = Ok n' -> exists k', n_priv n' = Some k'.
+  Proof.
+    unfold Bip32Kholaw.ckd_priv. intros E.
+    destruct (d_ser_index d i) as [ib|]; cbn [bind Ok Err] in E; [|discriminate].
+    destruct (is_hardened i); cbv zeta in E;
+      (match type of E with bind ?x _ = _ => destruct x as [kl|]; cbn [bind Ok Err] in E; [|discriminate] end;
+       match type of E with bind ?x _ = _ => destruct x as [kr|]; cbn [bind Ok Err] in E; [|discriminate] end;
+       destruct (Lemmas.Bip32Kholaw.node_from_priv_ok _ _ _ _ _ _ _ _ _ E) as (_ & P' & _); eexists; exact P').
+  Qed.
+
+  (* Bip32KholawEd25519 / CardanoIcarusBip32 .ChildKey(int) on a private object: every key, every int *)
+  Lemma conf_child_key_family n k (i : Z) : n_priv n = Some k -> in_family (child_key conf n i) = true.
+  Proof.
+    intros P. unfold Bip32Kholaw.child_key. destruct (index_ok i) eqn:I; [|reflexivity]. rewrite P.
+    apply conf_ckd_priv_family.
+    pose proof (index_ok_of_N i I) as Ei. rewrite Ei in I. exact (index_ok_lt _ I).
+  Qed.
+
+  Lemma conf_derive_elems_family p : forall n k, n_priv n = Some k ->
+    in_family (Bip32Path.derive_elems node (kh_ckd conf) n p) = true.
+  Proof.
+    induction p as [|i t IH]; intros n k P; cbn [Bip32Path.derive_elems]; [reflexivity|].
+    pose proof (conf_child_key_family n k (Z.of_N i) P) as F. unfold C14b.kh_ckd.
+    destruct (child_key conf n (Z.of_N i)) as [n'|e] eqn:E; cbn [bind Ok Err]; [|exact F].
+    unfold Bip32Kholaw.child_key in E. destruct (index_ok (Z.of_N i)); [|discriminate]. rewrite P in E.
+    destruct (ckd_priv_child_private _ _ _ _ _ E) as [k' P']. exact (IH n' k' P').
+  Qed.
+
+  (* <class>.FromSeedAndPath(seed, str), paths of any length *)
+  Lemma conf_from_seed_and_path_str_fof (from_seed : list N -> res node) seed s :
+    in_family_or_fuel (from_seed seed) = true ->
+    (forall n, from_seed seed = Ok n -> exists k, n_priv n = Some k) ->
+    in_family_or_fuel (C14b.kh_from_seed_and_path_str hmac_sha512 G gadd gmul gbase g_is_zero penc pdec conf from_seed seed s) = true.
+  Proof.
+    intros Hf Hp. unfold C14b.kh_from_seed_and_path_str. apply fof_bind; [exact Hf|]. intros n Hn.
+    destruct (Hp n Hn) as [k P].
+    apply fof_of_fam. unfold Bip32Path.derive_path_str.
+    apply fam_bind; [apply NoEscapePaths.bip32_parse_family|]. intros p _.
+    unfold Bip32Path.derive_path. destruct (_ && _); [reflexivity|]. exact (conf_derive_elems_family _ n k P).
+  Qed.
+
+  Lemma from_seed_private (m : res (list N * list N)) n :
+    (x <- m ;; node_from_priv (fst x) (snd x) 0) = Ok n -> exists k, n_priv n = Some k.
+  Proof.
+    destruct m as [[k cc]|]; cbn [bind Ok Err fst snd]; [|discriminate]. intros E.
+    destruct (Lemmas.Bip32Kholaw.node_from_priv_ok _ _ _ _ _ _ _ _ _ E) as (_ & P & _). eexists; exact P.
+  Qed.
+
+  Lemma conf_kh_from_seed_and_path_str_fof fuel seed s : (forall k m, length (hmac_sha512 k m) = 64%nat) ->
+    in_family_or_fuel (C14b.kh_from_seed_and_path_str hmac_sha512 G gadd gmul gbase g_is_zero penc pdec conf
+                         (kh_from_seed hmac_sha512 hmac_sha256 G gmul gbase g_is_zero penc fuel) seed s) = true.
+  Proof.
+    intros H. apply conf_from_seed_and_path_str_fof.
+    - apply (kh_from_seed_fof hmac_sha512 hmac_sha256 G gmul gbase g_is_zero penc H).
+    - intros n. apply from_seed_private.
+  Qed.
+  Lemma conf_ic_from_seed_and_path_str_family seed s : (forall p s r n, length (pbkdf2_sha512 p s r n) = N.to_nat n) ->
+    in_family_or_fuel (C14b.kh_from_seed_and_path_str hmac_sha512 G gadd gmul gbase g_is_zero penc pdec conf
+                         (ic_from_seed pbkdf2_sha512 G gmul gbase g_is_zero penc) seed s) = true.
+  Proof.
+    intros H. apply conf_from_seed_and_path_str_fof.
+    - apply fof_of_fam, (ic_from_seed_family pbkdf2_sha512 G gmul gbase g_is_zero penc H).
+    - intros n. apply from_seed_private.
+  Qed.
+End Conformant.
